@@ -108,6 +108,12 @@ class Workspace:
         rc, out, err = run([WIRE] + args, cwd=cwd or self.root, env=dict(GOENV), timeout=timeout)
         return rc, out, err
 
+    def wire_many(self, argvs, workers=12, timeout=120):
+        """run several wire invocations concurrently; returns results in order"""
+        from concurrent.futures import ThreadPoolExecutor
+        with ThreadPoolExecutor(max_workers=workers) as ex:
+            return list(ex.map(lambda a: self.wire(a, timeout=timeout), argvs))
+
     def reference(self, kind, k, d, opts=()):
         """bytes `wire gen` writes for this variant in a directory of its own (fresh checkout)"""
         key = (kind, k, d.split("/")[-1], tuple(opts))
